@@ -125,6 +125,17 @@ class TimeVec:
             r[k] = op(t.sec, o.sec)
         return r
 
+    def min(self, axis=None, **k):
+        from pbsym.stubs import sym_min
+        return SymTime(sym_min([t.sec for t in self.items]))
+
+    def max(self, axis=None, **k):
+        from pbsym.stubs import sym_max
+        return SymTime(sym_max([t.sec for t in self.items]))
+
+    def sort(self, axis=-1):
+        raise K.Unsupported("TimeVec.sort") if hasattr(K, "Unsupported") else NotImplementedError("TimeVec.sort")
+
     def __le__(self, o):
         return self._cmpv(o, operator.le)
 
